@@ -16,18 +16,22 @@ P(addr, verb, host, ep) == [addr |-> addr, verb |-> verb, host |-> host, ep |-> 
 \* specific addresses to the front"): /a/list before /a/<x>
 \* m7: a pattern WITHOUT an address gets the published name of its method - "find", the custom request message name,
 \* not the Python function's name "lookup" (which names nothing: GET /lookup is not found)
-Patterns == << P(<<"find">>, "GET", NoneV, "m7"),
+\* m8: a BARE method over a class (its request message is the class, in the class' namespace); m9: a method published under a
+\* name in ANOTHER namespace ("{urn:other}look"): a pattern names its method, whatever the message of the method is called
+Patterns == << P(<<"people", "<x>">>, NoneV, NoneV, "m8"),
+               P(<<"lookup", "<x>">>, NoneV, NoneV, "m9"),
+               P(<<"find">>, "GET", NoneV, "m7"),
                P(<<"b">>, NoneV, NoneV, "m3"),
                P(<<"a", "list">>, NoneV, NoneV, "m6"),
                P(<<"a", "<x>">>, NoneV, NoneV, "m2"),
                P(<<"a">>, "GET", NoneV, "m1"),
                P(<<"a">>, "DELETE", NoneV, "m4") >>
-Endpoints == {"m1", "m2", "m3", "m4", "m5", "m6", "m7"}     \* m5 has no pattern; m7 is only reachable through its pattern
+Endpoints == {"m1", "m2", "m3", "m4", "m5", "m6", "m7", "m8", "m9"}     \* m5 has no pattern; m7 is only reachable through its pattern
 Verbs == {"GET", "DELETE", "HEAD"}
 Hosts == {"a.example", "b.example"}   \* host PATTERNS cannot be constructed on Python 3 (str/bytes mix in HttpPattern.__init__): only the request host varies
 Paths == {<<"a">>, <<"a", "1">>, <<"a", "1", "2">>, <<"a", "">>, <<"b">>, <<"ab">>, <<"A">>,
           <<"a", "list">>, <<"a", "list", "x">>, <<"x", "m5">>, <<"m5">>, <<"m1">>, <<"x", "m2">>, <<"zz">>, <<"a", "m5">>,
-          <<"find">>, <<"lookup">>, <<"x", "find">>}
+          <<"find">>, <<"lookup">>, <<"x", "find">>, <<"people", "joe">>, <<"lookup", "k1">>, <<"people">>, <<"x", "look">>, <<"x", "m9">>}
 
 SegMatch(p, s)  == p = "<x>" \/ p = s
 AddrMatch(a, p) == Len(a) = Len(p) /\ \A i \in 1..Len(a) : SegMatch(a[i], p[i])
@@ -38,10 +42,17 @@ FirstMatch(v, h, p) == LET I == {i \in 1..Len(Patterns) : Matches(Patterns[i], v
                        IN IF I = {} THEN 0 ELSE CHOOSE i \in I : \A j \in I : i <= j
 \* the method a request names: the first matching pattern's endpoint, else the last segment
 Route(v, h, p) == IF FirstMatch(v, h, p) # 0 THEN Patterns[FirstMatch(v, h, p)].ep
-                  ELSE IF p[Len(p)] \in Endpoints \ {"m7"} THEN p[Len(p)]
+                  ELSE IF p[Len(p)] \in Endpoints \ {"m7", "m9"} THEN p[Len(p)]
                   ELSE IF p[Len(p)] = "find" THEN "m7"          \* the fallback uses the published name as well
+                  ELSE IF p[Len(p)] = "look" THEN "m9"
                   ELSE "notfound"
 Requests == Verbs \X Hosts \X Paths
+
+\* ---- WsgiMounter: applications mounted under a first path fragment; the fragment names its application EXACTLY, in whatever
+\* order the mounts were listed
+Mounts == {"v1", "v10", "beta"}
+MountFragments == {"v1", "v10", "beta", "v1x", "v100", "betamax", "v", "V1", "bet"}
+MountRoute(f) == IF f \in Mounts THEN f ELSE "notfound"
 \* sanity of the table: two patterns match one request only as literal-versus-placeholder,
 \* and then the literal one comes first
 Unambiguous == \A r \in Requests :
